@@ -262,10 +262,38 @@ func (pe *PEngine) callRange(n *vn) (*big.Int, *big.Int, bool) {
 			if !ok {
 				continue
 			}
-			l, h, ok := valueRange(cpf.get(ret.Results[0]))
+			rv := cpf.get(ret.Results[0])
+			l, h, ok := valueRange(rv)
 			if !ok {
 				pe.inCallRange[callee] = false
 				return nil, nil, false
+			}
+			// what guards the return may bound the value further (return n only after n <= max): the
+			// constants the function compares with are tried as bounds
+			if isIntType(rv.typ) && rv.op != "const" {
+				rl := cpf.linOf(rv)
+				var cands []*big.Int
+				for _, cb := range callee.Blocks {
+					for _, ins := range cb.Instrs {
+						if bo, ok := ins.(*ssa.BinOp); ok {
+							for _, o := range []ssa.Value{bo.X, bo.Y} {
+								if k, ok := constInt(o); ok && k.Sign() >= 0 && k.Cmp(h) < 0 {
+									cands = append(cands, k)
+								}
+							}
+						}
+					}
+				}
+				sort.Slice(cands, func(i, j int) bool { return cands[i].Cmp(cands[j]) < 0 })
+				for _, k := range cands {
+					if cpf.proveAt(b, pgoal{l: linConst(k).sub(rl)}, nil, 1) {
+						h = k
+						break
+					}
+				}
+				if l.Sign() < 0 && cpf.proveAt(b, pgoal{l: rl}, nil, 1) {
+					l = big.NewInt(0)
+				}
 			}
 			if lo == nil || l.Cmp(lo) < 0 {
 				lo = l
